@@ -654,6 +654,9 @@ def _bunching(ctx: Ctx, m0: pf.Module) -> None:
         elt_r = _resolve_names(g, elt, at, pset | {gen.target.id})
         payload, tag, efacts, how = _elem_ctor(ctx, m, elt_r, where)
         pay_ok = isinstance(payload, ast.Call) and len(payload.args) == 1 and isinstance(payload.args[0], ast.Name) and payload.args[0].id == gen.target.id
+        # evidence of a spec that is not serialised: the payload does not read the loop variable at all; another expression over it is not decided
+        ctx.need(pay_ok or gen.target.id not in pf.names_in(payload), f'{where}: the {role} payload `{pf.nsrc(payload)[:80]}` is not `<dumps>({gen.target.id})` (not analysed)')
+        ctx.need(pf.nsrc(tag) in enum_members, f'{where}: the type tag `{pf.nsrc(tag)}` of the {role} source is not a member of an Enum of this module (not analysed)')
         ios = facts.origins(g, gen.iter, at, pset)
         seq_names |= {x.id for x in ast.walk(gen.iter) if isinstance(x, ast.Name)}
         ctx.need(len(ios) == 1 and ios[0].rel != 'unknown', f'{where}: the iterable `{pf.nsrc(gen.iter)}` of the {role} comprehension has {len(ios)} possible origins (not analysed)')
@@ -735,6 +738,10 @@ def _bunching(ctx: Ctx, m0: pf.Module) -> None:
             args = [pf.nsrc(x) for x in c.args]
             if recv == bunch and meth == 'append' and args == [spec] and not c.keywords:
                 return 'app'
+            if recv == bunch and meth == 'extend' and args in ([f'[{spec}]'], [f'({spec},)']) and not c.keywords:
+                return 'app'
+            if recv == bunch and meth == 'insert' and args == [f'len({bunch})', spec] and not c.keywords:
+                return 'app'
             if recv == result and meth == 'append' and args == [bunch] and not c.keywords:
                 return 'flush'
             if recv == result and meth == 'extend' and args == [f'[{bunch}]'] and not c.keywords:
@@ -749,8 +756,13 @@ def _bunching(ctx: Ctx, m0: pf.Module) -> None:
             names = {x.id for t in tg for x in ast.walk(t) if isinstance(x, ast.Name) and isinstance(x.ctx, ast.Store)}
             if bunch in names:
                 v = a.value
+                if isinstance(a, ast.AugAssign) and isinstance(a.target, ast.Name) and isinstance(a.op, ast.Add) and isinstance(v, (ast.List, ast.Tuple)) \
+                        and [pf.nsrc(e) for e in v.elts] == [spec]:
+                    return 'app'      # bunch += [spec]
                 if isinstance(a, ast.AugAssign) or len(tg) != 1 or not isinstance(tg[0], ast.Name):
                     return f'other:{pf.nsrc(a)}'
+                if pf.nsrc(v) in (f'{bunch} + [{spec}]', f'[*{bunch}, {spec}]'):
+                    return 'app'      # bunch = bunch + [spec]
                 if isinstance(v, ast.List) and [pf.nsrc(e) for e in v.elts] == [spec]:
                     return 'new1'
                 if isinstance(v, ast.List) and not v.elts:
@@ -759,6 +771,9 @@ def _bunching(ctx: Ctx, m0: pf.Module) -> None:
             if result in names:
                 if isinstance(a, ast.AugAssign) and isinstance(a.target, ast.Name) and isinstance(a.op, ast.Add) and isinstance(a.value, ast.List) \
                         and [pf.nsrc(e) for e in a.value.elts] == [bunch]:
+                    return 'flush'
+                if isinstance(a, (ast.Assign, ast.AnnAssign)) and len(tg) == 1 and isinstance(tg[0], ast.Name) and a.value is not None \
+                        and pf.nsrc(a.value) in (f'{result} + [{bunch}]', f'[*{result}, {bunch}]'):
                     return 'flush'
                 return f'other:{pf.nsrc(a)}'
         return None
@@ -860,8 +875,77 @@ def _bunching(ctx: Ctx, m0: pf.Module) -> None:
     lim_bad: List[str] = []
     acct_bad: List[str] = []
     fresh_bad: List[str] = []
+    not_seen: List[str] = []      # reasons why a missing guard is NOT evidence: something on the path is not understood
     counter: Optional[str] = None
+    n_counter: Optional[str] = None     # a local that counts the specs of the current bunch, used in place of len(bunch)
     n_app = n_new = 0
+
+    # Boolean locals of the loop body (`too_many_bytes = current + n >= max_bytes` ... `if too_many_bytes or ...:`): a test that names one is read as its
+    # definition, provided the definition lies earlier on the path and nothing in between stores a name it reads or changes the current bunch
+    n_stores: Dict[str, int] = {}
+    for x in _stmts(fn):
+        if isinstance(x, (ast.Assign, ast.AugAssign, ast.AnnAssign, ast.For)):
+            for y in ast.walk(x.target if isinstance(x, (ast.AugAssign, ast.AnnAssign, ast.For)) else ast.Tuple(elts=list(x.targets), ctx=ast.Store())):
+                if isinstance(y, ast.Name) and isinstance(y.ctx, ast.Store):
+                    n_stores[y.id] = n_stores.get(y.id, 0) + 1
+    flags: Dict[str, ast.Assign] = {}
+    for st in _stmts(loop):
+        if isinstance(st, ast.Assign) and len(st.targets) == 1 and isinstance(st.targets[0], ast.Name) and n_stores.get(st.targets[0].id) == 1 \
+                and (isinstance(st.value, (ast.Compare, ast.BoolOp)) or (isinstance(st.value, ast.UnaryOp) and isinstance(st.value.op, ast.Not))):
+            flags[st.targets[0].id] = st
+
+    def flag_value(name: str, path: List[Tuple[pf.Node, str]], pos: int) -> Optional[ast.AST]:
+        st = flags.get(name)
+        if st is None:
+            return None
+        at = [k for k, (n_, _) in enumerate(path[:pos]) if n_.ast is st]
+        if len(at) != 1:
+            return None
+        reads = pf.names_in(st.value)
+        for n_, _ in path[at[0] + 1:pos]:
+            if event(n_) in ('app', 'new0', 'new1') or any(facts.stores_name(n_, r_) for r_ in reads):
+                return None
+        return st.value
+
+    def leaves(test: ast.AST, path: List[Tuple[pf.Node, str]], pos: int, depth: int = 3) -> List[ast.AST]:
+        """The atoms of the Boolean structure of a test (Boolean locals expanded)."""
+        if isinstance(test, ast.UnaryOp) and isinstance(test.op, ast.Not):
+            return leaves(test.operand, path, pos, depth)
+        if isinstance(test, ast.BoolOp):
+            return [a_ for v in test.values for a_ in leaves(v, path, pos, depth)]
+        if isinstance(test, ast.Name) and depth > 0:
+            fv = flag_value(test.id, path, pos)
+            if fv is not None:
+                return leaves(fv, path, pos, depth - 1)
+        return [test]
+
+    def conj(test: ast.AST, truth: bool, path: List[Tuple[pf.Node, str]], pos: int, depth: int = 3) -> List[Tuple[ast.AST, bool]]:
+        """_conjuncts with Boolean locals expanded."""
+        if isinstance(test, ast.UnaryOp) and isinstance(test.op, ast.Not):
+            return conj(test.operand, not truth, path, pos, depth)
+        if isinstance(test, ast.BoolOp):
+            if (isinstance(test.op, ast.And) and truth) or (isinstance(test.op, ast.Or) and not truth):
+                return [a_ for v in test.values for a_ in conj(v, truth, path, pos, depth)]
+            return []
+        if isinstance(test, ast.Name) and depth > 0:
+            fv = flag_value(test.id, path, pos)
+            if fv is not None:
+                return conj(fv, truth, path, pos, depth - 1)
+        return [(test, truth)]
+
+    def atom_le0(atom: ast.AST, pol: bool) -> Optional[Lin]:
+        # truthiness of the current bunch is a fact about its length
+        if isinstance(atom, ast.Name) and atom.id == bunch:
+            L0 = linform.const(1) - LEN       # bunch  <=>  len(bunch) >= 1
+            return L0 if pol else linform.const(1) - L0
+        if isinstance(atom, ast.Compare) and len(atom.ops) == 1 and isinstance(atom.ops[0], (ast.Eq, ast.NotEq)) and pf.nsrc(atom.left) == bunch \
+                and isinstance(atom.comparators[0], ast.List) and not atom.comparators[0].elts:
+            L0 = LEN                           # bunch == []  <=>  len(bunch) <= 0
+            if isinstance(atom.ops[0], ast.NotEq):
+                pol = not pol
+            return L0 if pol else linform.const(1) - L0
+        return _le0(atom, pol, env)
+
     for path in paths:
         evs = [(event(n), n) for n, _ in path if event(n) is not None]
         desc = ' -> '.join(f'{n.text()}[{lab}]' if n.kind == 'test' else n.text() for n, lab in path if n.kind in ('test',) or event(n) is not None) or '(no effect)'
@@ -879,29 +963,60 @@ def _bunching(ctx: Ctx, m0: pf.Module) -> None:
         # facts along the path
         pfacts: List[Lin] = []
         pos_of = {}
+        opaque: List[Tuple[int, str]] = []     # (position, text) of test atoms that are not linear comparisons: what they establish is not known
         for L0 in elem_facts:
             for L in _weaken(L0, bounds):
                 pfacts.append(L)
                 pos_of[id(L)] = -1
         for i, (n, lab) in enumerate(path):
             atoms: List[Tuple[ast.AST, bool]] = []
+            tst: Optional[ast.AST] = None
             if n.kind == 'test' and lab in ('T', 'F'):
-                atoms = _conjuncts(n.ast, lab == 'T')  # type: ignore[arg-type]
+                tst = n.ast
+                atoms = conj(n.ast, lab == 'T', path, i)  # type: ignore[arg-type]
             elif n.kind == 'stmt' and isinstance(n.ast, ast.Assert):
-                atoms = _conjuncts(n.ast.test, True)
+                tst = n.ast.test
+                atoms = conj(n.ast.test, True, path, i)
+            if tst is not None:
+                for lf in leaves(tst, path, i):
+                    if atom_le0(lf, True) is None:
+                        opaque.append((i, pf.nsrc(lf)[:80]))
             for atom, pol in atoms:
-                L0 = _le0(atom, pol, env)
+                L0 = atom_le0(atom, pol)
                 if L0 is not None:
                     for L in _weaken(L0, bounds):
                         pfacts.append(L)
                         pos_of[id(L)] = i
+        # a call statement on the path that receives the spec / the limits may be a check that is not seen through
+        for i, (n, _) in enumerate(path):
+            if n.kind == 'stmt' and isinstance(n.ast, ast.Expr) and isinstance(n.ast.value, ast.Call) and event(n) is None:
+                if pf.names_in(n.ast.value) & {spec, p_bytes, p_size, bunch} | {x for x in pf.names_in(n.ast.value) if x in env and spec in pf.names_in(env[x])}:
+                    opaque.append((i, pf.nsrc(n.ast)[:80]))
+
+        def unseen(upto: int, what: str) -> bool:
+            """Is something in front of position `upto` not understood?  Then a guard that was not found is no evidence of a violation."""
+            op = [t for i_, t in opaque if i_ < upto]
+            if op:
+                not_seen.append(f'{what} on the path {desc} was not found, but `{op[0]}` is not a linear comparison: what it establishes is not decided')
+            return bool(op)
+
         if 'app' in kinds:
             n_app += 1
             app_i = [i for i, (n, _) in enumerate(path) if event(n) == 'app'][0]
             before = [L for L in pfacts if pos_of[id(L)] < app_i]
             # count limit
             if not any(_nonneg_const(L - (LEN + linform.const(1) - LIM_N)) for L in before):
-                lim_bad.append(f'`{bunch}.append({spec})` on the path {desc} is not guarded by len({bunch}) + 1 <= {p_size}: with {p_size} = k a bunch receives k + 1 specs')
+                ncands = []
+                for L in before:
+                    d = L - (linform.const(1) - LIM_N)      # <counter> + 1 <= max_size
+                    syms = d.symbols()
+                    if len(syms) == 1 and d.coef[syms[0]] == 1 and d.const >= 0 and syms[0].isidentifier() and syms[0] not in (p_bytes, p_size):
+                        ncands.append(syms[0])
+                if ncands:
+                    ctx.need(n_counter in (None, ncands[0]), f'{where}: two different spec counters')
+                    n_counter = ncands[0]
+                elif not unseen(app_i, f'a guard len({bunch}) + 1 <= {p_size}'):
+                    lim_bad.append(f'`{bunch}.append({spec})` on the path {desc} is not guarded by len({bunch}) + 1 <= {p_size}: with {p_size} = k a bunch receives k + 1 specs')
             # byte limit: find the counter
             cands = []
             for L in before:
@@ -910,7 +1025,8 @@ def _bunching(ctx: Ctx, m0: pf.Module) -> None:
                 if len(syms) == 1 and d.coef[syms[0]] == 1 and d.const >= 0 and syms[0].isidentifier():
                     cands.append(syms[0])
             if not cands:
-                lim_bad.append(f'`{bunch}.append({spec})` on the path {desc} is not guarded by <bytes so far> + {spec}.n_bytes <= {p_bytes}: a bunch can exceed the byte limit')
+                if not unseen(app_i, f'a guard <bytes so far> + {spec}.n_bytes <= {p_bytes}'):
+                    lim_bad.append(f'`{bunch}.append({spec})` on the path {desc} is not guarded by <bytes so far> + {spec}.n_bytes <= {p_bytes}: a bunch can exceed the byte limit')
             else:
                 ctx.need(counter in (None, cands[0]), f'{where}: two different byte counters')
                 counter = cands[0]
@@ -918,7 +1034,7 @@ def _bunching(ctx: Ctx, m0: pf.Module) -> None:
             n_new += 1
             new_i = [i for i, (n, _) in enumerate(path) if event(n) == 'new1'][0]
             before = [L for L in pfacts if pos_of[id(L)] < new_i]
-            if not any(_nonneg_const(L - (size - LIM_B)) for L in before):
+            if not any(_nonneg_const(L - (size - LIM_B)) for L in before) and not unseen(new_i, f'a check {spec}.n_bytes <= {p_bytes}'):
                 sz = f'{spec}.n_bytes'
                 others = [size - L for L in before if L.coef.get(sz) == 1 and not any(s_ == f'len({bunch})' for s_ in L.coef)
                           and (counter is None or counter not in L.coef) and p_bytes not in L.coef]
@@ -927,33 +1043,60 @@ def _bunching(ctx: Ctx, m0: pf.Module) -> None:
                     extra = (f'; the only per-spec bound established is {sz} <= {others[0]!r}, which is not this call\'s parameter `{p_bytes}` (submit() forwards a caller-chosen limit): '
                              f'with {p_bytes}=65536 a spec of 200000 bytes passes that check and is returned as a bunch of 200000 bytes')
                 fresh_bad.append(f'the fresh bunch `[{spec}]` on the path {desc} is not preceded by a check {spec}.n_bytes <= {p_bytes}: a spec larger than the limit becomes a bunch of its own' + extra)
+    ctx.need(not not_seen or lin_bad, f'{where}: ' + (not_seen[0] if not_seen else ''))
 
-    # byte accounting along each path (needs the counter found above)
-    if counter is not None:
-        B0 = linform.sym(counter)
+    # accounting along each path (needs the counters found above): the tracked value is an upper bound of what it stands for
+    def account(cname: str, unit: Lin, what: str, thing: str) -> List[str]:
+        bad_: List[str] = []
+        B0 = linform.sym(cname)
         for path in paths:
             kinds = [event(n) for n, _ in path if event(n) is not None]
             cur = B0
             for n, _ in path:
                 a = n.ast
-                if n.kind == 'stmt' and isinstance(a, ast.AugAssign) and isinstance(a.target, ast.Name) and a.target.id == counter:
+                if facts.stores_name(n, cname) and not (n.kind == 'stmt' and ((isinstance(a, ast.AugAssign) and isinstance(a.target, ast.Name))
+                                                                               or (isinstance(a, ast.Assign) and all(isinstance(t, ast.Name) for t in a.targets))
+                                                                               or (isinstance(a, ast.AnnAssign) and isinstance(a.target, ast.Name) and a.value is not None))):
+                    raise AnalysisError(f'{where}: `{n.text()[:80]}` writes the {what} `{cname}` in a way that is not followed')
+                if n.kind == 'stmt' and isinstance(a, ast.AnnAssign) and isinstance(a.target, ast.Name) and a.target.id == cname and a.value is not None:
+                    cur = linform.lin(a.value, {**env, cname: cur})
+                if n.kind == 'stmt' and isinstance(a, ast.AugAssign) and isinstance(a.target, ast.Name) and a.target.id == cname:
                     ctx.need(isinstance(a.op, (ast.Add, ast.Sub)), f'{where}: `{pf.nsrc(a)}` not recognised')
                     d = linform.lin(a.value, env)
                     cur = cur + d if isinstance(a.op, ast.Add) else cur - d
-                elif n.kind == 'stmt' and isinstance(a, ast.Assign) and any(isinstance(t, ast.Name) and t.id == counter for t in a.targets):
-                    cur = linform.lin(a.value, {**env, counter: cur})
+                elif n.kind == 'stmt' and isinstance(a, ast.Assign) and any(isinstance(t, ast.Name) and t.id == cname for t in a.targets):
+                    cur = linform.lin(a.value, {**env, cname: cur})
             desc = ' -> '.join(n.text() for n, _ in path if event(n) is not None)
             if 'new1' in kinds or 'new0' in kinds:
-                d = cur - (size if ('new1' in kinds or 'app' in kinds) else linform.const(0))
-                ok = d.const >= 0 and all(s == counter and c >= 0 for s, c in d.coef.items())
+                d = cur - (unit if ('new1' in kinds or 'app' in kinds) else linform.const(0))
+                ok = d.const >= 0 and all(s == cname and c >= 0 for s, c in d.coef.items())
                 if not ok:
-                    acct_bad.append(f'after starting a new bunch ({desc}) the tracked byte count is `{cur!r}`, which is not >= the bytes of the new bunch `{size!r}`')
+                    bad_.append(f'after starting a new bunch ({desc}) the tracked {what} is `{cur!r}`, which is not >= the {thing} of the new bunch `{unit!r}`')
             elif 'app' in kinds:
-                if not _nonneg_const(cur - (B0 + size)):
-                    acct_bad.append(f'after `{bunch}.append({spec})` ({desc}) the tracked byte count is `{cur!r}`, not `{counter} + {size!r}`: the byte guard under-estimates the bunch')
-        inits = [st for st in fn.body if isinstance(st, (ast.Assign, ast.AnnAssign)) and any(isinstance(t, ast.Name) and t.id == counter for t in (st.targets if isinstance(st, ast.Assign) else [st.target]))]
-        if not (len(inits) == 1 and isinstance(inits[0].value, ast.Constant) and inits[0].value.value == 0 and g.dominated_by(H0, lambda n: n.ast is inits[0])):
-            acct_bad.append(f'`{counter}` is not initialised to 0 before the loop')
+                if not _nonneg_const(cur - (B0 + unit)):
+                    bad_.append(f'after `{bunch}.append({spec})` ({desc}) the tracked {what} is `{cur!r}`, not `{cname} + {unit!r}`: the guard under-estimates the bunch')
+        # the initial value: the definitions of the counter outside the loop body; a shape that is not a plain `counter = <linear expression>` in front of the loop is declined
+        outside = [n for n in g.nodes if n.id not in body_nodes and n is not H0 and facts.stores_name(n, cname)]
+        ctx.need(len(outside) == 1 and outside[0].kind == 'stmt' and isinstance(outside[0].ast, (ast.Assign, ast.AnnAssign)) and outside[0].ast.value is not None
+                 and all(isinstance(t, ast.Name) for t in (outside[0].ast.targets if isinstance(outside[0].ast, ast.Assign) else [outside[0].ast.target]))
+                 and g.dominated_by(H0, lambda n: n is outside[0]),
+                 f'{where}: the initial value of the {what} `{cname}` is not a single plain assignment in front of the loop')
+        try:
+            c0 = linform.lin(outside[0].ast.value, pre_env)  # type: ignore[union-attr]
+        except AnalysisError as ex:
+            raise AnalysisError(f'{where}: initial value `{pf.nsrc(outside[0].ast)}` of the {what} not recognised') from ex
+        ctx.need(c0.is_const(), f'{where}: initial value `{pf.nsrc(outside[0].ast)}` of the {what} is not a constant')
+        if c0.const < 0:
+            bad_.append(f'`{cname}` starts at {c0.const} (`{pf.nsrc(outside[0].ast)}`), below the {thing} of the empty bunch: the guard under-estimates every bunch')
+        return bad_
+
+    if counter is not None:
+        acct_bad += account(counter, size, 'byte count', 'bytes')
+    if n_counter is not None:
+        # a count variable used instead of len(bunch): the guard is as good as len(bunch) + 1 <= max_size when the variable never under-counts the bunch
+        cb_ = account(n_counter, linform.const(1), 'spec count', 'number of specs')
+        if cb_:
+            lim_bad.append(f'the count guard compares `{n_counter}` (not len({bunch})) with {p_size}, and {cb_[0]}: a bunch can receive more than {p_size} specs')
 
     def report(rule: str, name: str, bad: List[str], detail=None) -> None:
         cons = f'{where}::{name}'
@@ -973,26 +1116,60 @@ def _bunching(ctx: Ctx, m0: pf.Module) -> None:
     nb = m.func('SpecBytes.n_bytes')
     r0 = [st for st in _stmts(nb) if isinstance(st, ast.Return)]
     ctx.need(len(r0) == 1, f'{F}::SpecBytes.n_bytes: expected one return')
-    ctx.check(pf.nsrc(r0[0].value) == 'len(self.spec_bytes)', 'R3', f'{F}::SpecBytes.n_bytes', f'`{pf.nsrc(r0[0])}` is not the length of the serialised spec', m.path, r0[0].lineno)
+    nbv = pf.expand_locals(nb, r0[0].value) if r0[0].value is not None else None
+    ctx.need(nbv is not None, f'{F}::SpecBytes.n_bytes: returns nothing')
+    try:
+        nbl = linform.lin(nbv)  # type: ignore[arg-type]
+    except AnalysisError as ex:
+        raise AnalysisError(f'{F}::SpecBytes.n_bytes: `{pf.nsrc(r0[0])}` not recognised ({ex})') from ex
+    nself = nb.args.args[0].arg if nb.args.args else 'self'
+    ctx.need(all(s_.startswith(f'len({nself}.') or s_.startswith(f'{nself}.') for s_ in nbl.symbols()) or nbl.is_const(), f'{F}::SpecBytes.n_bytes: `{pf.nsrc(r0[0])}` not recognised')
+    ctx.check(nbl == linform.sym(f'len({nself}.spec_bytes)'), 'R3', f'{F}::SpecBytes.n_bytes', f'`{pf.nsrc(r0[0])}` (= `{nbl!r}`) is not the length of the serialised spec', m.path, r0[0].lineno)
 
     # ---- before and after the loop
-    inits_ok = True
+    inits_bad: List[str] = []
     for nm in (bunch, result):
-        ds = [st for st in fn.body if isinstance(st, (ast.Assign, ast.AnnAssign)) and any(isinstance(t, ast.Name) and t.id == nm for t in (st.targets if isinstance(st, ast.Assign) else [st.target]))]
-        inits_ok = inits_ok and len(ds) == 1 and isinstance(ds[0].value, ast.List) and not ds[0].value.elts and g.dominated_by(H0, lambda n, d=ds[0]: n.ast is d)
-    ctx.check(inits_ok, 'R2', f'{where}::starts empty', f'`{bunch}` / `{result}` are not initialised to [] exactly once before the loop', m.path, fn.lineno)
+        outs_ = [n for n in g.nodes if n.id not in body_nodes and n is not H0 and facts.stores_name(n, nm) and H0.id in g.reachable_from(n)]
+        ctx.need(len(outs_) == 1 and outs_[0].kind == 'stmt' and isinstance(outs_[0].ast, (ast.Assign, ast.AnnAssign)) and outs_[0].ast.value is not None
+                 and all(isinstance(t, ast.Name) for t in (outs_[0].ast.targets if isinstance(outs_[0].ast, ast.Assign) else [outs_[0].ast.target]))
+                 and g.dominated_by(H0, lambda n, d=outs_[0]: n is d),
+                 f'{where}: `{nm}` is not initialised by a single plain assignment in front of the loop')
+        v0 = outs_[0].ast.value  # type: ignore[union-attr]
+        if (isinstance(v0, ast.List) and not v0.elts) or pf.nsrc(v0) == 'list()':
+            continue
+        ctx.need(isinstance(v0, (ast.List, ast.ListComp)) or (isinstance(v0, ast.Name) and v0.id in params),
+                 f'{where}: initial value `{pf.nsrc(outs_[0].ast)}` not recognised')
+        inits_bad.append(f'`{pf.nsrc(outs_[0].ast)}`')
+    ctx.check(not inits_bad, 'R2', f'{where}::starts empty', f'{", ".join(inits_bad)}: `{bunch}` / `{result}` do not start as the empty list: specs that were never passed in are '
+              f'submitted / a bunch is shared between calls', m.path, fn.lineno)
 
     def nonempty_label(t: ast.AST) -> Optional[str]:
-        if pf.nsrc(t) in (bunch, f'len({bunch})', f'len({bunch}) > 0', f'len({bunch}) != 0', f'len({bunch}) >= 1', f'{bunch} != []'):
-            return 'T'
-        if pf.nsrc(t) in (f'not {bunch}', f'len({bunch}) == 0', f'{bunch} == []'):
-            return 'F'
-        return None
+        """The label of the edge taken when the bunch is NOT empty, for a test that is exactly about the emptiness of the bunch."""
+        flip = False
+        while isinstance(t, ast.UnaryOp) and isinstance(t.op, ast.Not):
+            t, flip = t.operand, not flip
+        lab: Optional[str] = None
+        if pf.nsrc(t) in (bunch, f'len({bunch})', f'bool({bunch})', f'{bunch} != []', f'[] != {bunch}', f'len({bunch}) != 0', f'0 != len({bunch})'):
+            lab = 'T'
+        elif pf.nsrc(t) in (f'{bunch} == []', f'[] == {bunch}', f'len({bunch}) == 0', f'0 == len({bunch})'):
+            lab = 'F'
+        else:
+            L = _le0(t, True, {})
+            if L is not None and L == linform.const(1) - LEN:
+                lab = 'T'
+            elif L is not None and L == LEN:
+                lab = 'F'
+        if lab is None:
+            return None
+        return lab if not flip else ('F' if lab == 'T' else 'T')
 
     after_tests = {}
     for n in g.nodes:
-        if n.kind == 'test' and n.id not in body_nodes and n.ast is not None and bunch in pf.names_in(n.ast):
-            lab = nonempty_label(n.ast)
+        if n.kind == 'test' and n.id not in body_nodes and n.ast is not None:
+            t_ = n.ast if bunch in pf.names_in(n.ast) else pf.expand_locals(fn, n.ast)     # `leftover = len(bunch) > 0` ... `if leftover:`
+            if bunch not in pf.names_in(t_):
+                continue
+            lab = nonempty_label(t_)
             ctx.need(lab is not None, f'{where}: test `{pf.nsrc(n.ast)}` after the loop not recognised')
             after_tests[n.id] = lab
 
@@ -1007,6 +1184,9 @@ def _bunching(ctx: Ctx, m0: pf.Module) -> None:
         return True
 
     p = g.path_avoiding(H0, lambda n: n is g.exit, is_flush, edge_ok=edge_ok)
+    if p is not None:
+        free = [n for n in p[1:] if n.kind in ('test', 'loop') and n.id not in after_tests]
+        ctx.need(not free, f'{where}: after the loop the residual bunch is appended under `{free[0].text() if free else ""}`, which is not a test of the emptiness of `{bunch}` (not analysed)')
     ctx.check(p is None, 'R2', f'{where}::residual bunch appended', f'after the loop a non-empty `{bunch}` can reach `return {result}` without `{result}.append({bunch})`: '
               f'the last bunch (all specs when everything fits in one bunch) is never submitted', m.path, rets[0].lineno)
     # nothing after the loop may touch the result otherwise
@@ -1014,56 +1194,125 @@ def _bunching(ctx: Ctx, m0: pf.Module) -> None:
     ctx.need(all(e == 'flush' for e in tail) and len(tail) <= 1, f'{where}: unrecognised statements after the loop: {tail}')
 
 
-def _submit_call(ctx: Ctx, m: pf.Module) -> None:
-    fn = m.func(f'{CLS}._submit')
+def _bound_args(call: ast.Call, callee: pf.FuncDef, drop_first: bool = True) -> Optional[Dict[str, ast.AST]]:
+    """parameter name -> argument expression of a call of `callee` (positional and keyword arguments; defaults are not filled in)."""
+    a = callee.args
+    if any(isinstance(x, ast.Starred) for x in call.args) or any(k.arg is None for k in call.keywords) or a.vararg or a.posonlyargs:
+        return None
+    pos = [x.arg for x in a.args][1 if drop_first else 0:]
+    names = pos + [x.arg for x in a.kwonlyargs]
+    if len(call.args) > len(pos):
+        return None
+    out: Dict[str, ast.AST] = dict(zip(pos, call.args))
+    for k in call.keywords:
+        if k.arg in out or (k.arg not in names and not a.kwarg):
+            return None
+        out[k.arg] = k.value  # type: ignore[index]
+    return out
+
+
+SUBMIT_KEEP = ('_create_bunches', '_submit_job_group_bunches', '_submit_job_bunches', '_create_fast', '_update_fast', '_open_batch', '_create_update', '_commit_update',
+               '_submit', '_submit_jobs', '_submit_job_groups', '_submit_spec_bunch')
+
+
+def _inlined(m: pf.Module, qual: str) -> Tuple[pf.Module, pf.FuncDef]:
+    """The function with the statement-level helpers a refactoring may have extracted inlined (the calls the rules look for by name stay calls)."""
+    from engines import c17facts
+    m2, fn, _il = c17facts.inline_site(m, qual, exclude=SUBMIT_KEEP)
+    return m2, fn
+
+
+def _submit_call(ctx: Ctx, m0: pf.Module) -> None:
+    m, fn = _inlined(m0, f'{CLS}._submit')
     where = f'{F}::{CLS}._submit'
     g = pf.cfg(fn)
     calls = [c for c in pf.calls_in(fn) if pf.dotted(c.func) == 'self._create_bunches']
-    ctx.need(len(calls) == 1 and not calls[0].keywords and len(calls[0].args) == 4, f'{where}: expected one positional call of self._create_bunches')
-    got = [pf.nsrc(a) for a in calls[0].args]
+    ctx.need(len(calls) == 1, f'{where}: expected one call of self._create_bunches')
+    cb = m.func(f'{CLS}._create_bunches')
+    callee = [a.arg for a in cb.args.args][1:]
+    ctx.need(len(callee) == 4, f'{where}: _create_bunches parameters changed: {callee}')
+    bound = _bound_args(calls[0], cb)
+    ctx.need(bound is not None and set(bound) == set(callee), f'{where}: arguments of `{pf.nsrc(calls[0])[:100]}` do not bind to {callee}')
     params = [a.arg for a in fn.args.args]
-    ctx.need('max_bunch_bytesize' in params and 'max_bunch_size' in params, f'{where}: limit parameters renamed')
-    want = ['self._job_group_specs', 'self._job_specs', 'max_bunch_bytesize', 'max_bunch_size']
-    callee = [a.arg for a in m.func(f'{CLS}._create_bunches').args.args][1:]
-    ctx.need(callee[2:] == ['max_bunch_bytesize', 'max_bunch_size'], f'{where}: _create_bunches limit parameters are {callee[2:]}')
+    # the limit parameters of _submit by POSITION (what `submit` passes), not by name
+    ctx.need(len(params) >= 3, f'{where}: parameters changed')
+    lim_b, lim_n = params[1], params[2]
+    asg = pf.assignments(fn)
+    ctx.need(all(len(asg.get(x, [])) == 1 for x in (lim_b, lim_n)), f'{where}: a limit parameter is re-assigned (not analysed)')
+    roles = {'self._job_group_specs': 'the job-group specs', 'self._job_specs': 'the job specs', lim_b: 'the byte limit', lim_n: 'the count limit'}
+    want = ['self._job_group_specs', 'self._job_specs', lim_b, lim_n]
+    got = []
+    for p_ in callee:
+        e = facts.expand_locals_except(fn, bound[p_], stop={lim_b, lim_n}, depth=3)  # type: ignore[index]
+        got.append(pf.nsrc(e))
+    ctx.need(all(x in roles for x in got), f'{where}: `{pf.nsrc(calls[0])[:120]}` passes {got}; expected a permutation of {want} (not analysed)')
     ctx.check(got == want, 'R1', f'{where}::arguments of _create_bunches', f'_create_bunches{tuple(callee)} is called with {got}: '
               + ('job specs are tagged as job groups and vice versa' if got[:2] == want[1::-1] else 'the byte limit and the count limit are interchanged' if got[2:] == want[:1:-1] else 'wrong arguments'),
               m.path, calls[0].lineno)
     # the public entry point hands ITS limit arguments on (the dual of checking against the class defaults inside _create_bunches)
-    sub = m.func(f'{CLS}.submit')
+    m_s, sub = _inlined(m0, f'{CLS}.submit')
     swhere = f'{F}::{CLS}.submit'
     sparams = [a.arg for a in sub.args.args + sub.args.kwonlyargs]
-    ctx.need('max_bunch_bytesize' in sparams and 'max_bunch_size' in sparams, f'{swhere}: limit parameters renamed')
-    ctx.need(not any(n_ in pf.assignments(sub) and len(pf.assignments(sub)[n_]) != 1 for n_ in ('max_bunch_bytesize', 'max_bunch_size')), f'{swhere}: a limit parameter is re-assigned (not analysed)')
+    ctx.need(len(sub.args.args) >= 3, f'{swhere}: parameters changed')
+    s_b, s_n = sub.args.args[1].arg, sub.args.args[2].arg
+    ctx.need('bytesize' in s_b and 'size' in s_n, f'{swhere}: limit parameters {s_b, s_n} not recognised')
+    ctx.need(not any(n_ in pf.assignments(sub) and len(pf.assignments(sub)[n_]) != 1 for n_ in (s_b, s_n)), f'{swhere}: a limit parameter is re-assigned (not analysed)')
     inner = [c for c in pf.calls_in(sub) if pf.dotted(c.func) == 'self._submit']
     ctx.need(len(inner) >= 1, f'{swhere}: no call of self._submit')
+    fn_orig = m0.func(f'{CLS}._submit')
     for i, c in enumerate(inner, start=1):
-        ctx.need(not any(isinstance(a, ast.Starred) for a in c.args) and not any(k.arg is None for k in c.keywords), f'{swhere}: star arguments in `{pf.nsrc(c)}`')
-        b = dict(zip(params[1:], [pf.nsrc(a) for a in c.args]))
-        b.update({k.arg: pf.nsrc(k.value) for k in c.keywords})
-        got2 = [b.get('max_bunch_bytesize'), b.get('max_bunch_size')]
-        ctx.check(got2 == ['max_bunch_bytesize', 'max_bunch_size'], 'R1', f'{swhere}::limits forwarded to _submit #{i}',
+        b = _bound_args(c, fn_orig)
+        ctx.need(b is not None and lim_b in b and lim_n in b, f'{swhere}: arguments of `{pf.nsrc(c)[:100]}` do not bind')
+        got2 = [pf.nsrc(facts.expand_locals_except(sub, b[x], stop={s_b, s_n}, depth=3)) for x in (lim_b, lim_n)]  # type: ignore[index]
+        if got2 != [s_b, s_n]:
+            # evidence: a limit of _submit is fed from the OTHER parameter, from a constant or from a class attribute - anything else is not decided
+            def foreign(t: str) -> bool:
+                try:
+                    e = ast.parse(t, mode='eval').body
+                except SyntaxError:
+                    return False
+                return t in (s_b, s_n) or isinstance(e, ast.Constant) or (pf.dotted(e) is not None and '.' in t and not (pf.names_in(e) & set(sparams[1:])))
+            ctx.need(all(t == w or foreign(t) for t, w in zip(got2, (s_b, s_n))), f'{swhere}: `{pf.nsrc(c)[:100]}` passes {got2} as limits (not analysed)')
+        ctx.check(got2 == [s_b, s_n], 'R1', f'{swhere}::limits forwarded to _submit #{i}',
                   f'`{pf.nsrc(c)}` passes {got2} as (max_bunch_bytesize, max_bunch_size): the limits the caller of submit() asked for are not the ones the bunches are built with '
-                  f'(e.g. submit(max_bunch_bytesize=65536) still produces bunches of up to the other value)', m.path, c.lineno)
-    bvar = [t.id for st in _stmts(fn) if isinstance(st, ast.Assign) and st.value is calls[0] for t in st.targets if isinstance(t, ast.Name)]
+                  f'(e.g. submit(max_bunch_bytesize=65536) still produces bunches of up to the other value)', m_s.path, c.lineno)
+    bvar = [t.id for st in _stmts(fn) if isinstance(st, (ast.Assign, ast.AnnAssign)) and st.value is calls[0]
+            for t in (st.targets if isinstance(st, ast.Assign) else [st.target]) if isinstance(t, ast.Name)]
     ctx.need(len(bvar) == 1 and len(pf.assignments(fn).get(bvar[0], [])) == 1, f'{where}: result of _create_bunches is not bound once')
     bunches = bvar[0]
 
-    def call_nodes(name: str) -> List[Tuple[pf.Node, ast.Call]]:
+    def is_bunches(e: Optional[ast.AST]) -> bool:
+        return e is not None and pf.nsrc(facts.expand_locals_except(fn, e, stop={bunches}, depth=3)) == bunches
+
+    def call_nodes(name: str) -> List[Tuple[pf.Node, ast.Call, Dict[str, ast.AST]]]:
         out = []
         for c in pf.calls_in(fn):
             if pf.dotted(c.func) == f'self.{name}':
                 ns = g.node_of(c)
                 ctx.need(len(ns) == 1, f'{where}: node of {name}')
-                out.append((ns[0], c))
+                b = _bound_args(c, m.func(f'{CLS}.{name}'))
+                ctx.need(b is not None, f'{where}: arguments of `{pf.nsrc(c)[:100]}` do not bind')
+                out.append((ns[0], c, b))
         return out
+
+    def param(name: str, idx: int) -> str:
+        ps = [a.arg for a in m.func(f'{CLS}.{name}').args.args]
+        ctx.need(len(ps) > idx, f'{F}::{CLS}.{name}: parameters changed')
+        return ps[idx]
 
     grp, job = call_nodes('_submit_job_group_bunches'), call_nodes('_submit_job_bunches')
     ctx.need(len(job) >= 1, f'{where}: no call of _submit_job_bunches')
-    for n, c in job:
-        doms = [gn for gn, gc in grp if g.dominated_by(n, lambda x, gn=gn: x is gn) and pf.node_has_await(gn)
-                and len(gc.args) >= 2 and pf.nsrc(gc.args[1]) == bunches and pf.nsrc(gc.args[0]) == pf.nsrc(c.args[0])]
-        arg_ok = len(c.args) >= 2 and pf.nsrc(c.args[1]) == bunches
+    g_upd, g_b = param('_submit_job_group_bunches', 1), param('_submit_job_group_bunches', 2)
+    j_upd, j_b = param('_submit_job_bunches', 1), param('_submit_job_bunches', 2)
+    for n, c, b in job:
+        ctx.need(j_b in b and j_upd in b, f'{where}: `{pf.nsrc(c)[:100]}` does not pass the update id and the bunches')
+        same_upd = [(gn, gc, gb) for gn, gc, gb in grp if g_upd in gb and pf.nsrc(gb[g_upd]) == pf.nsrc(b[j_upd])]
+        doms = [gn for gn, gc, gb in same_upd if g.dominated_by(n, lambda x, gn=gn: x is gn) and pf.node_has_await(gn) and is_bunches(gb.get(g_b))]
+        arg_ok = is_bunches(b[j_b])
+        if not arg_ok:
+            # evidence only when a recognisably different list is submitted (an element / slice / re-ordered copy of the bunches); an unknown expression is declined
+            e_ = facts.expand_locals_except(fn, b[j_b], stop={bunches}, depth=3)
+            ctx.need(bunches in pf.names_in(e_) and (isinstance(e_, ast.Subscript) or _reorders(e_, bunches)), f'{where}: `{pf.nsrc(c)[:100]}` submits `{pf.nsrc(e_)[:60]}` (not analysed)')
         branch = 'create' if any(pf.dotted(x.func) == 'self._open_batch' for x in pf.calls_in(fn) if g.node_of(x) and g.dominated_by(n, lambda y, x=x: y is g.node_of(x)[0])) else 'update'
         ctx.check(bool(doms) and arg_ok, 'R4', f'{where}::{branch}: job groups before jobs',
                   f'`{pf.nsrc(c)}` is not dominated by an awaited `self._submit_job_group_bunches(<same update>, {bunches}, …)`: jobs can be submitted before the job groups '
@@ -1072,7 +1321,12 @@ def _submit_call(ctx: Ctx, m: pf.Module) -> None:
     for name in ('_create_fast', '_update_fast'):
         cs = call_nodes(name)
         ctx.need(len(cs) == 1, f'{where}: expected one call of {name}')
-        ctx.check(pf.nsrc(cs[0][1].args[0]) == f'{bunches}[0]', 'R4', f'{where}::{name} receives the only bunch', f'`{pf.nsrc(cs[0][1])}` does not pass `{bunches}[0]`', m.path, cs[0][1].lineno)
+        p0 = param(name, 1)
+        ctx.need(p0 in cs[0][2], f'{where}: `{pf.nsrc(cs[0][1])[:100]}` does not pass the bunch')
+        e0 = facts.expand_locals_except(fn, cs[0][2][p0], stop={bunches}, depth=3)
+        first = pf.nsrc(e0) in (f'{bunches}[0]', f'{bunches}[-1]')     # the path is taken when there is exactly one bunch
+        ctx.need(first or (isinstance(e0, ast.Subscript) and pf.nsrc(e0.value) == bunches) or pf.nsrc(e0) == bunches, f'{where}: `{pf.nsrc(cs[0][1])[:100]}` passes `{pf.nsrc(e0)[:60]}` (not analysed)')
+        ctx.check(first, 'R4', f'{where}::{name} receives the only bunch', f'`{pf.nsrc(cs[0][1])}` does not pass `{bunches}[0]`', m.path, cs[0][1].lineno)
 
 
 def _spec_lists_keep_order(ctx: Ctx, m: pf.Module) -> None:
@@ -1182,24 +1436,33 @@ def _filter(ctx: Ctx, fn: pf.FuncDef, where: str, src_param: str) -> Dict[str, s
     return out
 
 
-def _submitters(ctx: Ctx, m: pf.Module) -> None:
+def _submitters(ctx: Ctx, m0: pf.Module) -> None:
     # per-bunch submitters: filter <-> endpoint
     for name, typ, suffix in (('_submit_jobs', 'JOB', '/jobs/create'), ('_submit_job_groups', 'JOB_GROUP', '/job-groups/create')):
-        fn = m.func(f'{CLS}.{name}')
+        m, fn = _inlined(m0, f'{CLS}.{name}')
         where = f'{F}::{CLS}.{name}'
         ctx.need(len(fn.args.args) >= 3, f'{where}: parameters changed')
-        fl = _filter(ctx, fn, where, fn.args.args[2].arg)
+        src_param = fn.args.args[2].arg
+        fl = _filter(ctx, fn, where, src_param)
         ctx.need(len(fl) == 1, f'{where}: expected one typed projection of the bunch')
         lst, got = next(iter(fl.items()))
         calls = [c for c in pf.calls_in(fn) if pf.dotted(c.func) == 'self._submit_spec_bunch']
-        ctx.need(len(calls) == 1 and len(calls[0].args) >= 2, f'{where}: expected one _submit_spec_bunch call')
-        url = pf.fstring_template(calls[0].args[0], lambda e: '{}')
+        ctx.need(len(calls) == 1, f'{where}: expected one _submit_spec_bunch call')
+        ssb = m.func(f'{CLS}._submit_spec_bunch')
+        ctx.need(len(ssb.args.args) >= 3, f'{F}::{CLS}._submit_spec_bunch: parameters changed')
+        bd = _bound_args(calls[0], ssb)
+        p_url, p_bunch = ssb.args.args[1].arg, ssb.args.args[2].arg
+        ctx.need(bd is not None and p_url in bd and p_bunch in bd, f'{where}: arguments of `{pf.nsrc(calls[0])[:100]}` do not bind')
+        url = pf.fstring_template(pf.resolve_expr(fn, bd[p_url]), lambda e: '{}')  # type: ignore[index]
         ctx.need(url is not None, f'{where}: url not a string template')
-        ctx.check(got == typ and url.endswith(suffix) and pf.nsrc(calls[0].args[1]) == lst, 'R4', f'{where}::filter matches endpoint',
-                  f'specs of type SpecType.{got} (`{lst}`) are posted as `{pf.nsrc(calls[0].args[1])}` to `…{url[-24:]}`; expected SpecType.{typ} -> …{suffix}', m.path, calls[0].lineno)
+        posted = pf.nsrc(facts.expand_locals_except(fn, bd[p_bunch], stop={lst, src_param}, depth=3))  # type: ignore[index]
+        ctx.need(posted in (lst, src_param), f'{where}: `{pf.nsrc(calls[0])[:100]}` posts `{posted[:60]}` (not analysed)')
+        ctx.need(url.endswith('/create'), f'{where}: endpoint `…{url[-24:]}` not recognised')
+        ctx.check(got == typ and url.endswith(suffix) and posted == lst, 'R4', f'{where}::filter matches endpoint',
+                  f'specs of type SpecType.{got} (`{lst}`) are posted as `{posted}` to `…{url[-24:]}`; expected SpecType.{typ} -> …{suffix}', m.path, calls[0].lineno)
     # fast paths: JSON key <-> list
     for name in ('_create_fast', '_update_fast'):
-        fn = m.func(f'{CLS}.{name}')
+        m, fn = _inlined(m0, f'{CLS}.{name}')
         where = f'{F}::{CLS}.{name}'
         fl = _filter(ctx, fn, where, fn.args.args[1].arg)
         ctx.need(sorted(fl.values()) == ['JOB', 'JOB_GROUP'], f'{where}: expected one JOB and one JOB_GROUP projection, found {fl}')
@@ -1213,6 +1476,10 @@ def _submitters(ctx: Ctx, m: pf.Module) -> None:
                     key = txt.strip('{,: ').strip('"')
             elif isinstance(st, ast.For) and isinstance(st.iter, ast.Call) and pf.dotted(st.iter.func) == 'enumerate' and len(st.iter.args) == 1 and isinstance(st.iter.args[0], ast.Name):
                 lst = st.iter.args[0].id
+                if lst not in fl:
+                    d_ = pf.resolve_expr(fn, st.iter.args[0])     # a local alias of a projection (an argument of an inlined helper)
+                    al = [k for k in fl if isinstance(d_, ast.Name) and d_.id == k]
+                    lst = al[0] if al else lst
                 ctx.need(lst in fl and key is not None and isinstance(st.target, ast.Tuple) and len(st.target.elts) == 2, f'{where}: serialisation loop over `{lst}` not recognised')
                 el = pf.nsrc(st.target.elts[1])
                 ext = [c for c in pf.calls_in(st) if isinstance(c.func, ast.Attribute) and c.func.attr == 'extend' and [pf.nsrc(a) for a in c.args] == [el]]
@@ -1225,28 +1492,72 @@ def _submitters(ctx: Ctx, m: pf.Module) -> None:
         ctx.check(not wrong, 'R4', f'{where}::JSON key matches spec type', f'the request field {wrong[0][0] if wrong else ""!r} is filled with SpecType.{wrong[0][1] if wrong else ""} specs: '
                   f'job specs are sent as job groups (or vice versa)', m.path, fn.lineno)
     # bunch lists reach the submitters in order
-    fn = m.func(f'{CLS}._submit_job_group_bunches')
+    m, fn = _inlined(m0, f'{CLS}._submit_job_group_bunches')
     where = f'{F}::{CLS}._submit_job_group_bunches'
+    ctx.need(len(fn.args.args) >= 3, f'{where}: parameters changed')
     prm = fn.args.args[2].arg
-    loops = [st for st in fn.body if isinstance(st, ast.For) and isinstance(st.iter, ast.Name) and st.iter.id == prm and isinstance(st.target, ast.Name)]
-    ok = False
-    if len(loops) == 1:
-        aw = [x for x in ast.walk(loops[0]) if isinstance(x, ast.Await) and isinstance(x.value, ast.Call) and pf.dotted(x.value.func) == 'self._submit_job_groups'
-              and len(x.value.args) >= 2 and pf.nsrc(x.value.args[1]) == loops[0].target.id]
-        ok = len(aw) == 1
-    ctx.check(ok, 'R4', f'{where}::sequential, in order', f'job-group bunches are not awaited one after the other in list order (a job group must be submitted after its parents)', m.path, fn.lineno)
-    fn = m.func(f'{CLS}._submit_job_bunches')
+    sjg = m.func(f'{CLS}._submit_job_groups')
+    ctx.need(len(sjg.args.args) >= 3, f'{F}::{CLS}._submit_job_groups: parameters changed')
+    p_b = sjg.args.args[2].arg
+    refs = [x for x in ast.walk(fn) if isinstance(x, ast.Attribute) and x.attr == '_submit_job_groups']
+    ctx.need(bool(refs), f'{where}: self._submit_job_groups is not used')
+    par = {c: p_ for p_ in ast.walk(fn) for c in ast.iter_child_nodes(p_)}
+    loops = [st for st in _stmts(fn) if isinstance(st, (ast.For, ast.AsyncFor, ast.While))]
+    seq_ok = False
+    concurrent = None
+    if len(loops) == 1 and isinstance(loops[0], ast.For) and len(refs) == 1 and isinstance(par.get(refs[0]), ast.Call) and par[refs[0]].func is refs[0] \
+            and isinstance(par.get(par[refs[0]]), ast.Await) and _inside(loops[0], refs[0]) and not loops[0].orelse:
+        lp = loops[0]
+        it, tgt = lp.iter, lp.target
+        if isinstance(it, ast.Call) and pf.dotted(it.func) == 'enumerate' and len(it.args) == 1 and not it.keywords and isinstance(tgt, ast.Tuple) and len(tgt.elts) == 2:
+            it, tgt = it.args[0], tgt.elts[1]
+        bd = _bound_args(par[refs[0]], sjg)
+        if isinstance(tgt, ast.Name) and pf.nsrc(pf.resolve_expr(fn, it)) == prm and bd is not None and p_b in bd and pf.nsrc(bd[p_b]) == tgt.id \
+                and not any(isinstance(x, (ast.Break, ast.Continue, ast.Return, ast.If)) for x in pf.walk_shallow(lp)):
+            seq_ok = True
+    for r_ in refs:
+        cur = par.get(r_)
+        while cur is not None and not isinstance(cur, ast.stmt):
+            if isinstance(cur, (ast.ListComp, ast.GeneratorExp, ast.SetComp, ast.Lambda)) or (isinstance(cur, ast.Call) and (pf.dotted(cur.func) or '').split('.')[-1] in
+                                                                                                 ('partial', 'gather', 'bounded_gather', 'create_task', 'ensure_future')):
+                concurrent = cur
+            cur = par.get(cur)
+        call_ = par.get(r_)
+        if isinstance(call_, ast.Call) and call_.func is r_ and not isinstance(par.get(call_), ast.Await) and concurrent is None:
+            concurrent = call_      # a coroutine object that is not awaited on the spot
+    ctx.need(seq_ok or concurrent is not None, f'{where}: the way the job-group bunches are submitted is not recognised (expected `for bunch in {prm}: await self._submit_job_groups(.., bunch, ..)`)')
+    ctx.check(seq_ok, 'R4', f'{where}::sequential, in order', f'job-group bunches are not awaited one after the other in list order (`{pf.nsrc(concurrent)[:90] if concurrent is not None else ""}`: '
+              f'a job group must be submitted after its parents)', m.path, fn.lineno)
+    m, fn = _inlined(m0, f'{CLS}._submit_job_bunches')
     where = f'{F}::{CLS}._submit_job_bunches'
+    ctx.need(len(fn.args.args) >= 3, f'{where}: parameters changed')
     prm = fn.args.args[2].arg
-    comps = [x for x in ast.walk(fn) if isinstance(x, (ast.ListComp, ast.GeneratorExp)) and len(x.generators) == 1 and pf.nsrc(x.generators[0].iter) == prm and not x.generators[0].ifs]
+    sj = m.func(f'{CLS}._submit_jobs')
+    ctx.need(len(sj.args.args) >= 3, f'{F}::{CLS}._submit_jobs: parameters changed')
+    comps = [x for x in ast.walk(fn) if isinstance(x, (ast.ListComp, ast.GeneratorExp)) and len(x.generators) == 1 and pf.nsrc(pf.resolve_expr(fn, x.generators[0].iter)) == prm]
+    floops = [x for x in _stmts(fn) if isinstance(x, ast.For) and pf.nsrc(pf.resolve_expr(fn, x.iter)) == prm]
     ok = False
-    if len(comps) == 1 and isinstance(comps[0].elt, ast.Call) and isinstance(comps[0].generators[0].target, ast.Name):
+    lossy = None
+    if len(comps) == 1 and not floops and isinstance(comps[0].elt, ast.Call) and isinstance(comps[0].generators[0].target, ast.Name):
         e = comps[0].elt
         tv = comps[0].generators[0].target.id
         args = [pf.nsrc(a) for a in e.args]
-        ok = (pf.dotted(e.func) == 'functools.partial' and args[:1] == ['self._submit_jobs'] and len(args) >= 3 and args[2] == tv) or \
-             (pf.dotted(e.func) == 'self._submit_jobs' and len(args) >= 2 and args[1] == tv)
-    ctx.check(ok, 'R4', f'{where}::every bunch submitted', f'not every bunch of `{prm}` is handed to self._submit_jobs exactly once', m.path, fn.lineno)
+        hit = (pf.dotted(e.func) in ('functools.partial', 'partial') and args[:1] == ['self._submit_jobs'] and len(args) >= 3 and args[2] == tv) or \
+              (pf.dotted(e.func) == 'self._submit_jobs' and len(args) >= 2 and args[1] == tv)
+        if hit and comps[0].generators[0].ifs:
+            lossy = f'`{pf.nsrc(comps[0])[:100]}` filters the bunches'
+        ok = hit and not comps[0].generators[0].ifs
+    elif len(floops) == 1 and not comps and isinstance(floops[0].target, ast.Name) and not floops[0].orelse:
+        tv = floops[0].target.id
+        cs = [c for c in pf.calls_in(floops[0]) if pf.dotted(c.func) == 'self._submit_jobs' or (pf.dotted(c.func) in ('functools.partial', 'partial') and c.args and pf.nsrc(c.args[0]) == 'self._submit_jobs')]
+        if len(cs) == 1 and tv in [pf.nsrc(a) for a in cs[0].args] and not any(isinstance(x, (ast.Break, ast.Continue, ast.Return, ast.If)) for x in pf.walk_shallow(floops[0])):
+            ok = True
+    if not ok and lossy is None:
+        sl = [x for x in ast.walk(fn) if isinstance(x, ast.Subscript) and pf.nsrc(x.value) == prm]
+        if sl:
+            lossy = f'`{pf.nsrc(sl[0])}` takes only part of the bunches'
+    ctx.need(ok or lossy is not None, f'{where}: the way the job bunches are handed to self._submit_jobs is not recognised')
+    ctx.check(ok, 'R4', f'{where}::every bunch submitted', f'not every bunch of `{prm}` is handed to self._submit_jobs exactly once ({lossy})', m.path, fn.lineno)
     ctx.unit('functions', 6)
 
 
